@@ -567,7 +567,8 @@ class Prop(fw.PropBase):
         cli_pairs, cli_problems = [], []
         for lib, out in zip(libs, res['cli']):
             if out.get('error'):
-                cli_problems.append({'fn': 'bamtagmultiome --consensus', 'impl_error': out['error'], 'trace': out.get('trace', '')[-600:]})
+                cli_problems.append({'fn': 'bamtagmultiome --consensus', 'impl_error': out['error'], 'trace': out.get('trace', '')[-600:],
+                                     'lib': libs.index(lib)})
                 continue
             by = {}
             for r in out['records']:
@@ -575,11 +576,11 @@ class Prop(fw.PropBase):
             for m in lib['molecules']:
                 cli_pairs.append((m, {'records': by.pop(m['sample'], []), 'cli': True}))
             if by:
-                cli_problems.append({'fn': 'bamtagmultiome --consensus', 'unexpected_records': sorted(map(str, by))})
+                cli_problems.append({'fn': 'bamtagmultiome --consensus', 'unexpected_records': sorted(map(str, by)), 'lib': libs.index(lib)})
             nsrc = sum(sum(1 for r in f['reads'] if r is not None) for m in lib['molecules'] for f in m['fragments'])
             if out['source'] != (0 if lib['no_source'] else nsrc):
                 cli_problems.append({'fn': 'bamtagmultiome --consensus', 'source_reads_written': out['source'],
-                                     'expected': 0 if lib['no_source'] else nsrc})
+                                     'expected': 0 if lib['no_source'] else nsrc, 'lib': libs.index(lib)})
         self.cli_pairs, self.cli_problems = cli_pairs, cli_problems
         pairs = list(zip(cases, api)) + cli_pairs
         # if C15-D31 is recorded as a known finding instead of being fixed: leave out exactly the molecules
@@ -810,8 +811,13 @@ class Prop(fw.PropBase):
                 'expected': 'blocks = covered positions; |seq|=|qual|=sum M; MD read against the query = reference; arg-max call; '
                             'SM/RX/DS/TF of the molecule'})
         for pr in self.cli_problems[:1]:
+            lib = self.libs_[pr['lib']] if 'lib' in pr else None
             self.witnesses.append({'key': 'C15:cli', 'what': 'bamtagmultiome --consensus --multiprocess: %s' % json.dumps(pr, default=str)[:800],
-                                   'input': 'synthetic library (seeded)'})
+                                   'input': None if lib is None else {
+                                       'argv': '-method %s --consensus --multiprocess%s' % (lib['klass'], ' --no_source_reads' if lib['no_source'] else ''),
+                                       'molecules': [{'sample': m['sample'], 'umi': m['umi'],
+                                                      'reads': [[r['pos'], ''.join('%d%s' % (n, 'MIDNSHP=X'[op]) for op, n in r['cigar']), r['seq'], 'rev' if r['rev'] else 'fwd']
+                                                                for f in m['fragments'] for r in f['reads'] if r is not None]} for m in lib['molecules']]}})
         # disagreements with the model that the transcribed specification does not see
         if not self.witnesses:
             for d in getattr(self, 'dis', [])[:1]:
